@@ -509,6 +509,50 @@ func genErrors(tier string, emit func(*Template)) {
 			}
 		}
 	}
+	// scope: the same expression text is valid in one place and refers to an undefined variable in
+	// another - in an earlier load of the same process (the variable was supplied then), or inside and
+	// outside an iterator within one template, in both document orders. The load must fail.
+	for _, slot := range []string{"name", "vars", "defaults", "load", "constraint", "bind", "connect"} {
+		mk := func(define bool) *Template {
+			l := leaf(2, "")
+			l.Vars = []KV{{"k", "v"}}
+			l.Defaults = []KV{{"dk", "dv"}}
+			l.Cons = []KV{{"a", "b"}}
+			l.Connect = []KV{{"in", "tcp://h:1"}}
+			l.Bind = []KV{{"out", "glob"}}
+			val := "p{{ sv }}"
+			if slot == "connect" {
+				val = "tcp://h{{ sv }}:1"
+			}
+			fieldSlots(l)[slot](val)
+			root := &N{Kind: "agg", Name: "root", Kids: []*N{l, leaf(3, "")}}
+			if define {
+				root.Vars = []KV{{"sv", "1"}}
+			}
+			return newTemplate(root, "true", "errors/scope/load-after-load/"+slot)
+		}
+		t := mk(false)
+		t.Prelude = []*Template{mk(true)}
+		emit(t)
+		for _, iterFirst := range []bool{true, false} {
+			in := leaf(2, "it")
+			in.Vars = []KV{{"peer", "peer-{{ it }}"}}
+			in.Iter = &Iter{Form: "range", Range: `["a","b"]`, Var: "it"}
+			stray := leaf(4, "")
+			stray.Vars = []KV{{"k", "v"}}
+			stray.Defaults = []KV{{"dk", "dv"}}
+			stray.Cons = []KV{{"a", "b"}}
+			stray.Connect = []KV{{"in", "tcp://h:1"}}
+			stray.Bind = []KV{{"out", "glob"}}
+			val := "peer-{{ it }}"
+			fieldSlots(stray)[slot](val)
+			kids := []*N{in, stray}
+			if !iterFirst {
+				kids = []*N{stray, in}
+			}
+			emit(newTemplate(&N{Kind: "agg", Name: "root", Kids: kids}, "true", "errors/scope/outside-the-iterator/"+slot))
+		}
+	}
 }
 
 // ---------------------------------------------------------------------------
@@ -561,12 +605,63 @@ func genMisc(tier string, emit func(*Template)) {
 	}
 }
 
+// ---------------------------------------------------------------------------
+// grid "nested": an iterator inside the template of another iterator; the inner roles refer to both
+// iteration variables and to a variable defined on the generated outer role. Under concurrent
+// processing the generated outer roles are expanded side by side, each with its own inner iterator.
+
+func genNested(tier string, emit func(*Template)) {
+	iter := func(n *N, ran, v string) *N {
+		n.Iter = &Iter{Form: "range", Range: ran, Var: v}
+		n.Name += "-{{ " + v + " }}"
+		return n
+	}
+	for _, outer := range []string{`["a","b"]`, `["a","b","c"]`} {
+		for _, innerRange := range []string{`["x","y"]`, `["{{ it }}1","{{ it }}2"]`} {
+			for _, ov := range []string{"none", "vars", "defaults"} {
+				for _, site := range []string{"vars", "defaults", "constraint", "bind"} {
+					for _, sib := range []bool{false, true} {
+						inner := iter(leaf(4, ""), innerRange, "jt")
+						val := "{{ it }}/{{ jt }}"
+						if ov != "none" {
+							val += "/{{ ov }}"
+						}
+						switch site {
+						case "vars":
+							inner.Vars = []KV{{"pair", val}}
+						case "defaults":
+							inner.Defaults = []KV{{"pair", val}}
+						case "constraint":
+							inner.Cons = []KV{{"zone", val}}
+						case "bind":
+							inner.Bind = []KV{{"out", "g-" + val}}
+						}
+						mid := iter(agg(2, "", inner), outer, "it")
+						switch ov {
+						case "vars":
+							mid.Vars = []KV{{"ov", "O-{{ it }}"}}
+						case "defaults":
+							mid.Defaults = []KV{{"ov", "O-{{ it }}"}}
+						}
+						kids := []*N{mid}
+						if sib {
+							kids = append(kids, leaf(6, ""))
+						}
+						emit(newTemplate(&N{Kind: "agg", Name: "root", Kids: kids}, "true", fmt.Sprintf("nested/outer-var=%s/ref=%s", ov, site)))
+					}
+				}
+			}
+		}
+	}
+}
+
 func directScenarios() []*vrt.Scenario {
 	return []*vrt.Scenario{
 		directScenario("prune", "all trees with <= 2 (thorough: 3) roles below the root, depth <= 3, each role optionally an iterator over 2 elements, all assignments of enabled in {absent,true,false,{{ flag }}} to all roles, flag in {true,false}", genPrune),
 		directScenario("iter", "one iterator (7 range forms: JSON list of 0/1/2, list from a variable, begin/end of 0/2/3 elements) x 7 body forms (task, call, hook, aggregator of 1/2, nested iterator, include) x enabled of the iterator (absent,false,{{ flag }},element-dependent,comparison) x enabled inside the body x flag x with/without siblings", genIter),
 		directScenario("vars", "chain root -> mid (aggregator | iterator) -> task; pv defined in every subset of <= 2 (thorough: 3) of 9 places (environment defaults/vars/user vars, root/mid/leaf defaults/vars), referenced from each of 9 templated fields of the leaf", genVars),
 		directScenario("misc", "hand-picked corner templates (empty roles lists, cascades of emptied aggregators, order around iterators, element-dependent enabled, ranges from parent variables / the outer element, include under an iterator) x flag", genMisc),
+		directScenario("nested", "iterator (2-3 elements) over an aggregator holding an inner iterator (fixed range / range built from the outer element) x a variable defined on the generated outer role (absent, vars, defaults) x the inner roles referring to both iteration variables and that variable from vars / defaults / constraints / bind x with/without a sibling", genNested),
 		directScenario("errors", "5 base templates x every role x every templated field x 3 kinds of template error (one at a time), plus errors that hit a single element of an iterator range", genErrors),
 	}
 }
